@@ -293,6 +293,9 @@ def build_module(design, mname, built):
     built.modules[mname] = m
     for k, v in ns.items():
         built.objs[(mname, k)] = v
+    for rm, ri, rp in design.get("reads", []):
+        if rm == mname:
+            getattr(ns[ri], rp)  # a look at the port, nothing else
     return m
 
 
